@@ -69,7 +69,8 @@ class Gen:
         r = self.r
         out, seen = [], []
 
-        def add(rc, pyval):
+        def add(rc, pyval=None):
+            pyval = values.build(rc)          # the key as Python sees it: equal keys would collide in the mapping
             if any(pyval == s for s in seen):
                 return
             seen.append(pyval)
@@ -84,6 +85,12 @@ class Gen:
                 rc, pv = r.choice(pool)
                 add(list(rc), pv)
                 continue
+            if out and r.random() < 0.3:
+                # a neighbour of a key that is already there: differs in the least significant component only
+                nb = neighbour(r, out[-1])
+                if nb is not None:
+                    add(nb)
+                    continue
             if family == 'str':
                 s = r.choice(KEY_STRS)
                 add(['str', s], s)
@@ -174,6 +181,57 @@ class Gen:
         return out
 
 
+def neighbour(r, rc):
+    t = rc[0]
+    if t == 'datetime':
+        nb = list(rc)
+        which = r.choice(['us', 'us', 's'])
+        if which == 'us':
+            nb[7] = r.choice([u for u in (0, 1, 999999, 500000, 123456) if u != rc[7]])
+        else:
+            nb[6] = (rc[6] + 1) % 60
+        return nb
+    if t == 'date':
+        return ['date', rc[1], rc[2], rc[3] % 28 + 1]
+    if t == 'str':
+        v = rc[1]
+        return ['str', r.choice([v + ' ', v.upper(), v.lower(), v + '0', '0' + v, v + v[-1:], v[:-1]])]
+    if t == 'int':
+        return r.choice([['int', rc[1] + 1], ['int', -rc[1]], ['float', repr(rc[1] + 0.5)]])
+    if t == 'float':
+        return ['float', repr(float(rc[1]) + 0.25)] if rc[1] not in ('inf', '-inf', 'nan') else None
+    if t == 'bytes':
+        return ['bytes', rc[1] + r.choice(['00', 'ff', '20'])]
+    return None
+
+
+def equal_variant(r, rc):
+    """The same recipe with some scalars replaced by values that are == but of another type / sign
+    (1, True, 1.0; 0, False, 0.0, -0.0): an equal value with a different text."""
+    t = rc[0]
+    if t in ('int', 'bool', 'float'):
+        try:
+            v = values.build(rc)
+            if v == 1 and r.random() < 0.7:
+                return r.choice([['int', 1], ['bool', True], ['float', '1.0']])
+            if v == 0 and r.random() < 0.7:
+                return r.choice([['int', 0], ['bool', False], ['float', '0.0'], ['float', '-0.0']])
+            if t == 'int' and r.random() < 0.3:
+                return ['float', repr(float(v))] if abs(v) < 2 ** 53 else rc
+            if t == 'float' and float(v).is_integer() and abs(v) < 2 ** 53 and r.random() < 0.3:
+                return ['int', int(v)]
+        except (ValueError, OverflowError):
+            pass
+        return rc
+    if t in ('list', 'tuple', 'set'):
+        return [t, [equal_variant(r, x) for x in rc[1]], rc[2]]
+    if t == 'dict':
+        return [t, [[equal_variant(r, k), equal_variant(r, x)] for k, x in rc[1]], rc[2]]
+    if t == 'shared':
+        return [t, rc[1], equal_variant(r, rc[2])]
+    return rc
+
+
 def gen_opts(r, c_backend):
     o = {}
     if r.random() < 0.4:
@@ -215,8 +273,20 @@ def generate(seed, tier):
     nperm = r.choice([1, 2, 3, 3])
     perms = [0] + [r.randrange(1, 1 << 20) for _ in range(nperm - 1)]
     hs = r.sample(HASHSEEDS + EXTRA_HASHSEEDS, r.choice([3, 3, 4]))
+    # what each interpreter has dumped before (same dumper, same options): nothing, an ==-equal variant of the
+    # value, or something unrelated - the text of the value itself must not depend on it
+    rp = kernel.rng(seed, 'primes')
+    primes = []
+    for _ in hs:
+        x = rp.random()
+        if x < 0.5:
+            primes.append([])
+        elif x < 0.85:
+            primes.append([equal_variant(rp, recipe)])
+        else:
+            primes.append([Gen(rp, sets=sort_keys, depth=2, width=3).value(0), equal_variant(rp, recipe)])
     return {'recipe': recipe, 'perms': perms, 'hashseeds': hs, 'opts': opts, 'dumper': dumper, 'junk': r.randrange(0, 2000),
-            'multi': g.multi}
+            'multi': g.multi, 'primes': primes}
 
 
 def describe(case):
@@ -283,8 +353,9 @@ def _execute(case):
         return out
     req = {'recipe': case['recipe'], 'perms': case['perms'], 'opts': case['opts'], 'dumper': case['dumper']}
     answers = {}
+    primes = case.get('primes') or []
     for i, hs in enumerate(case['hashseeds']):
-        a = ask(hs, dict(req, junk=(case.get('junk', 0) * (i + 1)) % 2000))
+        a = ask(hs, dict(req, junk=(case.get('junk', 0) * (i + 1)) % 2000, primes=primes[i] if i < len(primes) else []))
         if 'crash' in a:
             out['violations'].append({'class': 'crash', 'detail': {'hashseed': hs, 'exit': a['crash']}})
             out['log'] = 'crash'
@@ -299,6 +370,7 @@ def _execute(case):
     out['faults']['hash-seed-change'] = len(case['hashseeds']) - 1
     out['faults']['process-change'] = len(case['hashseeds']) - 1
     out['faults']['insertion-permutation'] = (len(case['perms']) - 1) * len(case['hashseeds'])
+    out['faults']['different-dump-history'] = sum(1 for p in primes if p)
     if len(set(a['set_order'] for a in answers.values())) > 1:
         out['probes']['set_iteration_order_differed_between_interpreters'] = 1
     if case.get('multi'):
@@ -376,7 +448,8 @@ def clip(t):
 def shrink(case):
     if len(case['hashseeds']) > 2:
         for i in range(len(case['hashseeds'])):
-            yield dict(case, hashseeds=case['hashseeds'][:i] + case['hashseeds'][i + 1:])
+            pr = case.get('primes') or [[] for _ in case['hashseeds']]
+            yield dict(case, hashseeds=case['hashseeds'][:i] + case['hashseeds'][i + 1:], primes=pr[:i] + pr[i + 1:])
     if len(case['perms']) > 1:
         for i in range(1, len(case['perms'])):
             yield dict(case, perms=case['perms'][:i] + case['perms'][i + 1:])
@@ -385,6 +458,12 @@ def shrink(case):
             yield dict(case, opts={kk: vv for kk, vv in case['opts'].items() if kk != k})
     if case.get('junk'):
         yield dict(case, junk=0)
+    if any(case.get('primes') or []):
+        pr = case['primes']
+        yield dict(case, primes=[[] for _ in pr])
+        for i, p in enumerate(pr):
+            if p:
+                yield dict(case, primes=pr[:i] + [p[1:]] + pr[i + 1:])
     for rc in shrink_recipe(case['recipe']):
         yield dict(case, recipe=rc)
 
